@@ -212,7 +212,25 @@ def _multiline_attrs(text):
         k += 1
 
 
+def _alias_set(text):
+    """R8: `self.value.set_value(E)` -> `self.cur = (E)` (any argument expression)"""
+    k = 0
+    while True:
+        b = R.blank(text)
+        m = re.search(r"\bself\s*\.\s*value\s*\.\s*set_value\s*\(", b)
+        if not m:
+            return text, k
+        o = m.end() - 1
+        c = R.match_close(b, o)
+        text = text[:m.start()] + "self.cur = (" + text[o + 1:c] + ")" + text[c + 1:]
+        k += 1
+
+
 GROUPS = {
+    "alias": [
+        ("R8", _alias_set, None),
+        ("R8", r"\bself\s*\.\s*value\s*\.\s*get_value\s*\(\s*\)", "self.cur"),
+    ],
     "base": [
         ("R10", _multiline_attrs, None),
         ("R10", _attrs, None),
@@ -241,6 +259,8 @@ GROUPS = {
         # m[(r, c)] = e;   ->  m.set_at(r, c, e);
         ("R11", r"(\b[\w.]+)\s*\[\(\s*([^,()\]]+),\s*([^,()\]]+)\)\]\s*=\s*([^;=][^;]*);", r"\1.set_at(\2, \3, \4);"),
         ("R11", r"(\b[\w.]+(?:\(\))?)\s*\[\(\s*([^,()\]]+),\s*([^,()\]]+)\)\]", r"\1.at(\2, \3)"),
+        # point - point (nalgebra gives a vector)
+        ("R11", r"\(\s*([\w.]+(?:\(\))?)\s*-\s*([\w.:]+(?:\(\))?)\s*\)\s*\.\s*norm_squared\(\)", r"\1.sub_p(&\2).norm_squared()"),
         ("R11", r"\bPoint2<F>", "Point2"),
         ("R11", r"\bPoint2<f64>", "Point2"),
         ("R11", r"\bTranslation2<f64>", "Translation2"),
